@@ -5,7 +5,14 @@
 #define VP_WSMASK_CONTRACTS_H
 /* clang-format off */
 static void ws_apply_mask(uint8_t *buf, size_t len, const uint8_t mask[4])
+#ifdef WSM_FIXLEN
+__CPROVER_requires(len == WSM_FIXLEN)
+#endif
+#ifdef WSM_FIXALLOC
+__CPROVER_requires(len <= WSM_MAXLEN && __CPROVER_is_fresh(buf, WSM_MAXLEN))
+#else
 __CPROVER_requires(len <= WSM_MAXLEN && (len == 0 || __CPROVER_is_fresh(buf, len)))
+#endif
 __CPROVER_requires(__CPROVER_is_fresh(mask, 4))
 /* ghost equation: g_b is the input byte at index g_k */
 __CPROVER_requires(g_k < len ==> g_b == buf[g_k])
